@@ -126,8 +126,13 @@ func runCheck(repo, verif, prop, tier string, update bool) int {
 	}
 	loadS := time.Since(start).Seconds()
 	var cts []*Contract
+	altBuilds := map[string][]*Contract{}
 	for _, c := range eng.all {
 		if c.hasProp(prop) && !c.Trusted && !c.EffOnly {
+			if c.Build != "" && !strings.HasPrefix(c.Build, "!") {
+				altBuilds[c.Build] = append(altBuilds[c.Build], c)
+				continue
+			}
 			cts = append(cts, c)
 		}
 	}
@@ -145,6 +150,27 @@ func runCheck(repo, verif, prop, tier string, update bool) int {
 		}(i, ct)
 	}
 	wg.Wait()
+	// alternative build configurations (build tags): the same check against the other implementation
+	var builds []string
+	for b := range altBuilds {
+		builds = append(builds, b)
+	}
+	sort.Strings(builds)
+	for _, b := range builds {
+		e2, err := loadEngine(repo, verif, pats, "verif,"+b, fragOverlay(repo, all, pats))
+		if err != nil {
+			fmt.Fprintln(os.Stderr, "govc: cannot load /repo with tag", b+":", err)
+			return 2
+		}
+		for _, ct := range altBuilds[b] {
+			c2 := e2.contracts[ct.PkgPath+"."+ct.Key]
+			if c2 == nil {
+				c2 = ct
+			}
+			fv := e2.verifyFunc(c2)
+			fvs = append(fvs, fv)
+		}
+	}
 	genS := time.Since(start).Seconds() - loadS
 	timeout := 30
 	thorough := tier == "thorough"
